@@ -46,8 +46,8 @@ def evaluate(case):
     cfg, ops = case["cfg"], case["ops"]
     res.sample = {"cfg": describe(cfg), "ops": ops, "hash": cfg_hash(case)}
     kw = build(cfg)
-    m = AquaCropModel(**kw)
     try:
+        m = AquaCropModel(**kw)
         m.run_model(till_termination=True)
     except Exception as e:
         lab = classify_rejection(e)
@@ -63,7 +63,7 @@ def evaluate(case):
         return res
     first = outputs_of(m)
     res.evals = 0
-    deep0 = float(kw["soil"].zSoil)
+    deep0 = float(m._param_struct.Soil.zSoil)
     for n, op in enumerate(ops, start=1):
         try:
             if op == "rerun_same_model":
@@ -109,7 +109,18 @@ def evaluate(case):
 
 
 def fixed_cases(tier):
-    return []
+    """Boundary: the latest harvest date the library derives (planting + MaturityCD + 30 days) and writes onto the
+    user's Crop object falls on / next to the planting day itself (a season of a full year)."""
+    out = []
+    W = dict(kind="synth", first="2000-04-25", days=1400, tmean=24.0, amp=3.0, phase=0, dtr=9.0, et0=4.5, rain_p=0.35, rain_mm=10.0, noise=11, events=[])
+    for name in ("Cassava", "SugarCane"):
+        for mcd in (334, 335, 336):
+            for off in (False, True):
+                cfg = dict(start="2000/05/01", end="2003/12/31", off_season=off,
+                           crop=dict(name=name, planting="05/01", harvest=None, overrides={"MaturityCD": mcd}),
+                           soil=dict(type="Loam", args={}), iwc=None, irr=dict(method=0), fm=None, ffm=None, gw=None, co2=None, weather=dict(W))
+                out.append(("year-long-%s-%d-%s" % (name, mcd, off), dict(cfg=cfg, ops=list(OPS), step=61)))
+    return out
 
 
 def simplifications(case):
